@@ -49,7 +49,7 @@ class Module:
             self.tree = ast.parse(source, filename=relpath)
         except SyntaxError as exc:  # pragma: no cover
             raise AnalysisError(f'parse error in {relpath}: {exc}')
-        self.tree = orient_comparisons(split_conditional_callees(fold_dynamic_names(unroll_literal_loops(inline_string_constants(split_chained_assignments(suppress_to_try(wraps_call_to_decorator(inline_thunks(self.tree)))))))))
+        self.tree = orient_comparisons(split_conditional_callees(fold_dynamic_names(unroll_literal_loops(inline_string_constants(split_chained_assignments(suppress_to_try(wraps_call_to_decorator(inline_thunks(map_to_comprehension(self.tree))))))))))
         if os.environ.get('COPSTAT_INLINE_TEMPS', '1') != '0':
             self.tree = inline_adjacent_temporaries(hoist_walrus(self.tree))
         if os.environ.get('COPSTAT_EXPAND_IFEXP', '1') != '0':
@@ -143,6 +143,222 @@ def _stmt_blocks(node):
     if isinstance(node, ast.Try):
         for h in node.handlers:
             yield h, 'body', h.body
+
+
+def record_types(tree):
+    """{class name: [field names]} for module-level `Name = namedtuple('Name', [...])` / `namedtuple('Name', 'a b c')` definitions."""
+    out = {}
+    for n in tree.body:
+        if isinstance(n, ast.Assign) and len(n.targets) == 1 and isinstance(n.targets[0], ast.Name) and isinstance(n.value, ast.Call) \
+                and ((isinstance(n.value.func, ast.Name) and n.value.func.id == 'namedtuple') or (isinstance(n.value.func, ast.Attribute) and n.value.func.attr == 'namedtuple')) \
+                and len(n.value.args) >= 2 and not n.value.keywords:
+            f = n.value.args[1]
+            fields = None
+            if isinstance(f, (ast.List, ast.Tuple)) and all(isinstance(e, ast.Constant) and isinstance(e.value, str) for e in f.elts):
+                fields = [e.value for e in f.elts]
+            elif isinstance(f, ast.Constant) and isinstance(f.value, str):
+                fields = f.value.replace(',', ' ').split()
+            if fields and all(x.isidentifier() for x in fields):
+                out[n.targets[0].id] = fields
+    return out
+
+
+def scalarize_records(fnnode, records):
+    """Normalisation inside one function: a local that only ever holds freshly constructed records of one namedtuple type
+    (`p = _Rec(a=.., b=..)`), and is only used as `p.field`, unpacked completely (`x, y = p`) or iterated by a comprehension, is replaced by one
+    local per field (`p__a`, `p__b`).  A record that is returned, passed on whole, starred or compared keeps its form.  Returns True when something changed."""
+    import copy
+    if not records:
+        return False
+    stores = {}
+    for x in walk_no_nested(fnnode):
+        if isinstance(x, ast.Name) and isinstance(x.ctx, (ast.Store, ast.Del)):
+            stores.setdefault(x.id, []).append(x)
+    params = {a.arg for a in fnnode.args.posonlyargs + fnnode.args.args + fnnode.args.kwonlyargs}
+    changed = False
+    for name, sts in list(stores.items()):
+        if name in params:
+            continue
+        ctor = None
+        ok = True
+        assigns = []
+        for st in sts:
+            par = getattr(st, '_parent', None)
+            if not (isinstance(par, ast.Assign) and len(par.targets) == 1 and par.targets[0] is st and isinstance(par.value, ast.Call)
+                    and isinstance(par.value.func, ast.Name) and par.value.func.id in records):
+                ok = False
+                break
+            c = par.value
+            fields = records[c.func.id]
+            if ctor not in (None, c.func.id) or any(isinstance(a, ast.Starred) for a in c.args) or any(k.arg is None for k in c.keywords) \
+                    or len(c.args) + len(c.keywords) != len(fields) or any(k.arg not in fields[len(c.args):] for k in c.keywords):
+                ok = False
+                break
+            ctor = c.func.id
+            assigns.append(par)
+        if not ok or ctor is None:
+            continue
+        fields = records[ctor]
+        loads = [x for x in walk_no_nested(fnnode) if isinstance(x, ast.Name) and x.id == name and isinstance(x.ctx, ast.Load)]
+        # nested functions reading the record keep it
+        if any(isinstance(x, ast.Name) and x.id == name for d in ast.walk(fnnode) if isinstance(d, (ast.FunctionDef, ast.AsyncFunctionDef, ast.Lambda)) and d is not fnnode for x in ast.walk(d)):
+            continue
+        uses = []
+        for ld in loads:
+            par = getattr(ld, '_parent', None)
+            if isinstance(par, ast.Attribute) and par.value is ld and par.attr in fields and isinstance(par.ctx, ast.Load):
+                uses.append(('attr', ld, par))
+            elif isinstance(par, ast.Assign) and par.value is ld and len(par.targets) == 1 and isinstance(par.targets[0], (ast.Tuple, ast.List)) \
+                    and len(par.targets[0].elts) == len(fields) and not any(isinstance(e, ast.Starred) for e in par.targets[0].elts):
+                uses.append(('unpack', ld, par))
+            elif isinstance(par, ast.comprehension) and par.iter is ld:
+                uses.append(('iter', ld, par))
+            else:
+                uses = None
+                break
+        if uses is None:
+            continue
+        fname = lambda f_: f'{name}__{f_}'
+        if any(fname(f_) in stores for f_ in fields):
+            continue
+        # rewrite uses
+        for kind, ld, par in uses:
+            if kind == 'attr':
+                new = ast.copy_location(ast.Name(id=fname(par.attr), ctx=ast.Load()), par)
+                gp = par._parent
+                for fld, val in ast.iter_fields(gp):
+                    if val is par:
+                        setattr(gp, fld, new)
+                    elif isinstance(val, list):
+                        for i_, v_ in enumerate(val):
+                            if v_ is par:
+                                val[i_] = new
+                new._parent = gp
+            elif kind == 'unpack':
+                par.value = ast.copy_location(ast.Tuple(elts=[ast.Name(id=fname(f_), ctx=ast.Load()) for f_ in fields], ctx=ast.Load()), ld)
+            else:
+                par.iter = ast.copy_location(ast.Tuple(elts=[ast.Name(id=fname(f_), ctx=ast.Load()) for f_ in fields], ctx=ast.Load()), ld)
+        # rewrite constructions (after the uses, so that constructor arguments reading the old record already name the fields)
+        for a in assigns:
+            c = a.value
+            vals = dict(zip(fields, c.args))
+            vals.update({k.arg: k.value for k in c.keywords})
+            reads_self = any(isinstance(x, ast.Name) and x.id.startswith(name + '__') for v in vals.values() for x in ast.walk(v))
+            new_stmts = []
+            if reads_self:
+                for f_ in fields:
+                    new_stmts.append(ast.copy_location(ast.Assign(targets=[ast.Name(id=f'_new_{name}__{f_}', ctx=ast.Store())], value=vals[f_]), a))
+                for f_ in fields:
+                    new_stmts.append(ast.copy_location(ast.Assign(targets=[ast.Name(id=fname(f_), ctx=ast.Store())], value=ast.Name(id=f'_new_{name}__{f_}', ctx=ast.Load())), a))
+            else:
+                for f_ in fields:
+                    new_stmts.append(ast.copy_location(ast.Assign(targets=[ast.Name(id=fname(f_), ctx=ast.Store())], value=vals[f_]), a))
+            holder = a._parent
+            for fld, val in ast.iter_fields(holder):
+                if isinstance(val, list) and a in val:
+                    i_ = val.index(a)
+                    val[i_:i_ + 1] = new_stmts
+        changed = True
+        ast.fix_missing_locations(fnnode)
+        for parent in ast.walk(fnnode):
+            for child in ast.iter_child_nodes(parent):
+                child._parent = parent
+    return changed
+
+
+def map_to_comprehension(tree):
+    """Normalisation: `list(map(f, xs))` / `tuple(map(f, xs))` become `[f(x) for x in xs]` (wrapped in tuple(...) for the tuple form), with
+    operator.methodcaller / itemgetter / attrgetter and lambdas applied symbolically: `map(methodcaller('to_dict'), xs)` -> `x.to_dict()`.
+    `itertools.starmap(f, xs)` likewise with `f(*x)`.  Only fully consumed maps (list / tuple / sorted / set is not order-preserving and is left alone)."""
+    import copy
+    ops, opmods, itmods, starmaps = {}, set(), set(), set()
+    for n in tree.body:
+        if isinstance(n, ast.ImportFrom) and n.module == 'operator':
+            for a in n.names:
+                if a.name in ('methodcaller', 'itemgetter', 'attrgetter'):
+                    ops[a.asname or a.name] = a.name
+        elif isinstance(n, ast.ImportFrom) and n.module == 'itertools':
+            starmaps |= {a.asname or a.name for a in n.names if a.name == 'starmap'}
+        elif isinstance(n, ast.Import):
+            opmods |= {a.asname or a.name for a in n.names if a.name == 'operator'}
+            itmods |= {a.asname or a.name for a in n.names if a.name == 'itertools'}
+    counter = [0]
+
+    def op_kind(f):
+        if isinstance(f, ast.Call) and isinstance(f.func, ast.Name) and f.func.id in ops:
+            return ops[f.func.id]
+        if isinstance(f, ast.Call) and isinstance(f.func, ast.Attribute) and isinstance(f.func.value, ast.Name) and f.func.value.id in opmods \
+                and f.func.attr in ('methodcaller', 'itemgetter', 'attrgetter'):
+            return f.func.attr
+        return None
+
+    def apply(f, var, star):
+        x = ast.Name(id=var, ctx=ast.Load())
+        k = op_kind(f)
+        if k == 'methodcaller' and f.args and isinstance(f.args[0], ast.Constant) and isinstance(f.args[0].value, str) and not star:
+            return ast.Call(func=ast.Attribute(value=x, attr=f.args[0].value, ctx=ast.Load()), args=list(f.args[1:]), keywords=list(f.keywords))
+        if k == 'itemgetter' and len(f.args) == 1 and not f.keywords and not star:
+            return ast.Subscript(value=x, slice=f.args[0], ctx=ast.Load())
+        if k == 'attrgetter' and len(f.args) == 1 and isinstance(f.args[0], ast.Constant) and isinstance(f.args[0].value, str) and '.' not in f.args[0].value and not star:
+            return ast.Attribute(value=x, attr=f.args[0].value, ctx=ast.Load())
+        if k is not None:
+            return None
+        if isinstance(f, ast.Lambda) and not star and len(f.args.args) == 1 and not (f.args.vararg or f.args.kwarg or f.args.kwonlyargs or f.args.defaults):
+            class Sub(ast.NodeTransformer):
+                def visit_Name(self, n):
+                    return ast.copy_location(ast.Name(id=var, ctx=n.ctx), n) if n.id == f.args.args[0].arg else n
+            return Sub().visit(copy.deepcopy(f.body))
+        if isinstance(f, (ast.Name, ast.Attribute)):
+            return ast.Call(func=f, args=[ast.Starred(value=x, ctx=ast.Load())] if star else [x], keywords=[])
+        return None
+
+    class T(ast.NodeTransformer):
+        def visit_Call(self, node):
+            self.generic_visit(node)
+            if isinstance(node.func, ast.Name) and node.func.id in ('list', 'tuple') and len(node.args) == 1 and not node.keywords and isinstance(node.args[0], ast.Call):
+                m = node.args[0]
+                star = (isinstance(m.func, ast.Name) and m.func.id in starmaps) or \
+                       (isinstance(m.func, ast.Attribute) and m.func.attr == 'starmap' and isinstance(m.func.value, ast.Name) and m.func.value.id in itmods)
+                if ((isinstance(m.func, ast.Name) and m.func.id == 'map') or star) and len(m.args) == 2 and not m.keywords:
+                    counter[0] += 1
+                    var = f'_m{counter[0]}'
+                    elt = apply(m.args[0], var, star)
+                    if elt is not None:
+                        comp = ast.ListComp(elt=elt, generators=[ast.comprehension(target=ast.Name(id=var, ctx=ast.Store()), iter=m.args[1], ifs=[], is_async=0)])
+                        ast.copy_location(comp, node)
+                        if node.func.id == 'tuple':
+                            node.args = [comp]
+                            return node
+                        return comp
+            return node
+    tree = T().visit(tree)
+
+    # `for x in map(itemgetter(k), xs): body`  ->  `for _r in xs: x = _r[k]; body`   (itemgetter / attrgetter have no effects of their own)
+    for n in ast.walk(tree):
+        if isinstance(n, ast.For) and isinstance(n.iter, ast.Call) and isinstance(n.iter.func, ast.Name) and n.iter.func.id == 'map' and len(n.iter.args) == 2 \
+                and not n.iter.keywords and op_kind(n.iter.args[0]) in ('itemgetter', 'attrgetter') and isinstance(n.target, ast.Name):
+            counter[0] += 1
+            var = f'_m{counter[0]}'
+            elt = apply(n.iter.args[0], var, False)
+            if elt is not None:
+                tname = n.target.id
+                if any(isinstance(x, ast.Name) and x.id == tname and isinstance(x.ctx, (ast.Store, ast.Del)) for b in n.body for x in ast.walk(b)) or n.orelse:
+                    first = ast.copy_location(ast.Assign(targets=[ast.Name(id=tname, ctx=ast.Store())], value=elt), n)
+                    n.body = [first] + n.body
+                else:
+                    class SubT(ast.NodeTransformer):
+                        def visit_Name(self, x):
+                            if x.id == tname and isinstance(x.ctx, ast.Load):
+                                e = copy.deepcopy(elt)
+                                for y in ast.walk(e):
+                                    ast.copy_location(y, x)
+                                return e
+                            return x
+                    n.body = [SubT().visit(b) for b in n.body]
+                n.iter = n.iter.args[1]
+                n.target = ast.copy_location(ast.Name(id=var, ctx=ast.Store()), n.target)
+    ast.fix_missing_locations(tree)
+    return tree
 
 
 def inline_thunks(tree):
@@ -716,6 +932,12 @@ def unroll_literal_loops(tree):
     Behaviour-preserving; lets attribute-level rules see `self.__dict__.pop(name)` / `setattr(obj, key, ...)`."""
     import copy
     tables = _constant_tables(tree)
+    getters, opmods = set(), set()
+    for n_ in getattr(tree, 'body', []):
+        if isinstance(n_, ast.ImportFrom) and n_.module == 'operator':
+            getters |= {a.asname or a.name for a in n_.names if a.name == 'itemgetter'}
+        elif isinstance(n_, ast.Import):
+            opmods |= {a.asname or a.name for a in n_.names if a.name == 'operator'}
 
     class Subst(ast.NodeTransformer):
         def __init__(self, name, const):
@@ -725,7 +947,17 @@ def unroll_literal_loops(tree):
             if n.id == self.name and isinstance(n.ctx, ast.Load):
                 if isinstance(self.const, tuple) and self.const[0] == 'name':
                     return ast.copy_location(ast.parse(self.const[1], mode='eval').body, n)
+                if isinstance(self.const, tuple):
+                    return ast.copy_location(ast.Tuple(elts=[ast.Constant(value=c_) for c_ in self.const], ctx=ast.Load()), n)
                 return ast.copy_location(ast.Constant(value=self.const), n)
+            return n
+
+        def visit_Subscript(self, n):
+            self.generic_visit(n)
+            # ('a', 'b')[0] after the substitution of a row of a constant table
+            if isinstance(n.value, ast.Tuple) and isinstance(n.slice, ast.Constant) and isinstance(n.slice.value, int) and not isinstance(n.slice.value, bool) \
+                    and all(isinstance(e, ast.Constant) for e in n.value.elts) and -len(n.value.elts) <= n.slice.value < len(n.value.elts) and isinstance(n.ctx, ast.Load):
+                return ast.copy_location(n.value.elts[n.slice.value], n)
             return n
 
     def literal_of(fnnode, it, cls=None):
@@ -746,7 +978,7 @@ def unroll_literal_loops(tree):
         if isinstance(it, ast.Attribute) and isinstance(it.value, ast.Name) and it.value.id in ('self', 'cls') and cls is not None \
                 and cls + '.' + it.attr in tables:
             return list(tables[cls + '.' + it.attr])
-        if isinstance(it, (ast.Tuple, ast.List)) and it.elts and len(it.elts) <= 4 and all(isinstance(e, ast.Name) for e in it.elts):
+        if isinstance(it, (ast.Tuple, ast.List)) and it.elts and len(it.elts) <= 8 and all(isinstance(e, ast.Name) for e in it.elts):
             return [('name', e.id) for e in it.elts]
         if isinstance(it, (ast.Tuple, ast.List)) and it.elts and len(it.elts) <= 4 and all(
                 isinstance(e, ast.Name) or (isinstance(e, ast.Constant) and isinstance(e.value, (int, float)) and not isinstance(e.value, bool)) for e in it.elts):
@@ -839,6 +1071,12 @@ def unroll_literal_loops(tree):
                 if isinstance(a, ast.Starred) and isinstance(a.value, ast.GeneratorExp):
                     a.value._unroll_ok = True       # f(*(g(k) for k in ('a', 'b'))): the elements, in order, exactly once
             self.generic_visit(node)
+            # f(*TABLE) with TABLE a module- / class-level constant tuple: the constants themselves
+            for i_, a in enumerate(list(node.args)):
+                if isinstance(a, ast.Starred) and not isinstance(a.value, (ast.List, ast.Tuple, ast.GeneratorExp)):
+                    vals = literal_of(self.fn, a.value, self.cls) if isinstance(a.value, (ast.Name, ast.Attribute)) else None
+                    if vals and all(isinstance(v, (str, int)) for v in vals):
+                        a.value = ast.copy_location(ast.Tuple(elts=[ast.Constant(value=v) for v in vals], ctx=ast.Load()), a.value)
             if any(isinstance(a, ast.Starred) and isinstance(a.value, (ast.List, ast.Tuple)) for a in node.args):
                 flat = []
                 for a in node.args:
@@ -847,6 +1085,16 @@ def unroll_literal_loops(tree):
                     else:
                         flat.append(a)
                 node.args = flat
+            # operator.itemgetter(k1, ..., kn)(d)  ->  (d[k1], ..., d[kn])   (d[k1] for a single key); d a plain name, evaluated once either way
+            if isinstance(node.func, ast.Call) and len(node.args) == 1 and not node.keywords and isinstance(node.args[0], ast.Name) and not node.func.keywords \
+                    and node.func.args and all(isinstance(k, ast.Constant) for k in node.func.args) and \
+                    ((isinstance(node.func.func, ast.Name) and node.func.func.id in getters) or
+                     (isinstance(node.func.func, ast.Attribute) and node.func.func.attr == 'itemgetter' and isinstance(node.func.func.value, ast.Name) and node.func.func.value.id in opmods)):
+                items = [ast.Subscript(value=ast.Name(id=node.args[0].id, ctx=ast.Load()), slice=k, ctx=ast.Load()) for k in node.func.args]
+                new = items[0] if len(items) == 1 else ast.Tuple(elts=items, ctx=ast.Load())
+                for x in ast.walk(new):
+                    ast.copy_location(x, node)
+                return new
             # d.update([(k1, v1), (k2, v2)]) / dict([(k1, v1), ...])  ->  with a dict literal
             if ((isinstance(node.func, ast.Attribute) and node.func.attr == 'update') or (isinstance(node.func, ast.Name) and node.func.id == 'dict')) \
                     and len(node.args) == 1 and not node.keywords and isinstance(node.args[0], ast.List) and node.args[0].elts \
@@ -896,8 +1144,20 @@ def unroll_literal_loops(tree):
             if any(isinstance(x, ast.Name) and x.id == node.target.id and isinstance(x.ctx, ast.Store) for b in node.body for x in ast.walk(b)):
                 return node
             vals = literal_of(self.fn, node.iter, self.cls)
-            if vals is None or any(isinstance(v, tuple) and v[:1] != ('name',) for v in vals):
+            if vals is None:
                 return node
+            if any(isinstance(v, tuple) and v[:1] != ('name',) for v in vals):
+                # rows of a constant table bound to one name: only when every use of the name is a constant subscript
+                uses = [x for b in node.body for x in ast.walk(b) if isinstance(x, ast.Name) and x.id == node.target.id]
+                subs = [x for b in node.body for x in ast.walk(b) if isinstance(x, ast.Subscript) and isinstance(x.value, ast.Name) and x.value.id == node.target.id
+                        and isinstance(x.slice, ast.Constant) and isinstance(x.slice.value, int)]
+                if not all(isinstance(v, tuple) and v[:1] != ('name',) for v in vals) or len(uses) != len(subs):
+                    return node
+                out = []
+                for v in vals:
+                    for b in node.body:
+                        out.append(Subst(node.target.id, v).visit(copy.deepcopy(b)))
+                return out
             names = {v[1].split('.')[0] for v in vals if isinstance(v, tuple)}
             if names and any(isinstance(x, ast.Name) and x.id in names and isinstance(x.ctx, ast.Store) for b in node.body for x in ast.walk(b)):
                 return node
@@ -1121,6 +1381,137 @@ class Program:
             cls.base_names = [self.resolve(cls.module, b) or ast.unparse(b) for b in cls.node.bases]
         for fn in list(self.functions.values()):
             fn.decorators = [self._decorator_name(fn.module, d) for d in fn.node.decorator_list]
+        self._inline_accessors()
+        self._inline_expression_helpers()
+
+    def _inline_expression_helpers(self):
+        """Normalisation over the whole program: a private module-level function `def _h(p, q): return <expr>` (no decorator, defaults or
+        star parameters, a single return after the docstring) called with plain arguments (names, constants, attribute chains) is replaced by
+        `<expr>` with the arguments substituted; plain arguments have no effects, so evaluating them where the parameters stood is the same."""
+        import copy
+        for fn in list(self.functions.values()):
+            if fn.cls is not None or fn.outer is not None or not fn.name.startswith('_') or fn.name.startswith('__') or fn.node.decorator_list \
+                    or fn.vararg or fn.kwarg or fn.kwonly or fn.defaults:
+                continue
+            body = fn.node.body
+            if body and isinstance(body[0], ast.Expr) and isinstance(body[0].value, ast.Constant) and isinstance(body[0].value.value, str):
+                body = body[1:]
+            if len(body) != 1 or not isinstance(body[0], ast.Return) or body[0].value is None:
+                continue
+            expr = body[0].value
+            if any(isinstance(x, (ast.Yield, ast.YieldFrom, ast.Await, ast.Lambda, ast.NamedExpr)) for x in ast.walk(expr)):
+                continue
+            if any(isinstance(x, ast.Call) and isinstance(x.func, ast.Name) and x.func.id == fn.name for x in ast.walk(expr)):
+                continue
+            bound_inside = {x.id for x in ast.walk(expr) if isinstance(x, ast.Name) and isinstance(x.ctx, ast.Store)}
+            free = {x.id for x in ast.walk(expr) if isinstance(x, ast.Name) and isinstance(x.ctx, ast.Load)} - set(fn.params) - bound_inside
+            if bound_inside & set(fn.params):
+                continue
+
+            def plain(a):
+                while isinstance(a, ast.Attribute):
+                    a = a.value
+                return isinstance(a, (ast.Name, ast.Constant))
+            for caller in list(self.functions.values()):
+                if caller is fn:
+                    continue
+                # the free names of the expression (np, EPSILON, ...) must mean the same in the caller's module
+                if caller.module is not fn.module and any(self.resolve(caller.module, ast.Name(id=nm, ctx=ast.Load())) != self.resolve(fn.module, ast.Name(id=nm, ctx=ast.Load()))
+                                                          for nm in free):
+                    continue
+                local_names = {x.id for x in ast.walk(caller.node) if isinstance(x, ast.Name) and isinstance(x.ctx, ast.Store)} | set(caller.params)
+                if free & local_names:
+                    continue
+                prog = self
+
+                class Sub(ast.NodeTransformer):
+                    hit = False
+
+                    def visit_Call(self2, n):
+                        self2.generic_visit(n)
+                        if isinstance(n.func, (ast.Name, ast.Attribute)) and prog.resolve(caller.module, n.func) == fn.qualname and not n.keywords \
+                                and len(n.args) == len(fn.params) and all(plain(a) for a in n.args):
+                            names_in_args = {x.id for a in n.args for x in ast.walk(a) if isinstance(x, ast.Name)}
+                            if names_in_args & bound_inside:
+                                return n
+                            mapping = dict(zip(fn.params, n.args))
+
+                            class P(ast.NodeTransformer):
+                                def visit_Name(self3, x):
+                                    if x.id in mapping and isinstance(x.ctx, ast.Load):
+                                        return copy.deepcopy(mapping[x.id])
+                                    return x
+                            e = P().visit(copy.deepcopy(expr))
+                            for x in ast.walk(e):
+                                ast.copy_location(x, n)
+                            Sub.hit = True
+                            return e
+                        return n
+                Sub().visit(caller.node)
+                if Sub.hit:
+                    ast.fix_missing_locations(caller.node)
+                    for parent in ast.walk(caller.node):
+                        for child in ast.iter_child_nodes(parent):
+                            child._parent = parent
+
+    def _inline_accessors(self):
+        """Normalisation over the whole program: a private method `def _m(self): return <expr>` (no other parameter, no decorator, a single
+        return after the docstring, not overridden in any subclass and not itself an override) is an accessor; every `self._m()` in the
+        methods of its class and subclasses is replaced by `<expr>` with the caller's own `self`.  The method itself stays defined."""
+        import copy
+        for cls in list(self.classes.values()):
+            for name, m in list(cls.methods.items()):
+                if not name.startswith('_') or name.startswith('__') or m.node.decorator_list or len(m.params) != 1 or m.kwonly or m.vararg or m.kwarg:
+                    continue
+                body = m.node.body
+                if body and isinstance(body[0], ast.Expr) and isinstance(body[0].value, ast.Constant) and isinstance(body[0].value.value, str):
+                    body = body[1:]
+                if len(body) != 1 or not isinstance(body[0], ast.Return) or body[0].value is None:
+                    continue
+                expr = body[0].value
+                if any(isinstance(x, (ast.Yield, ast.YieldFrom, ast.Await, ast.Lambda, ast.NamedExpr)) for x in ast.walk(expr)):
+                    continue
+                try:
+                    subs = cls.subclasses(strict=True)
+                    bases = [c for c in cls.mro() if c is not cls]
+                except AnalysisError:
+                    continue
+                if any(name in c.methods for c in subs) or any(name in c.methods for c in bases):
+                    continue
+                if any(isinstance(x, ast.Call) and isinstance(x.func, ast.Attribute) and x.func.attr == name and isinstance(x.func.value, ast.Name)
+                       and x.func.value.id == m.params[0] for x in ast.walk(expr)):
+                    continue        # recursive
+                selfname = m.params[0]
+                for c in [cls] + subs:
+                    for caller in c.methods.values():
+                        if caller is m or not caller.params or caller.kind != 'method':
+                            continue
+                        cs = caller.params[0]
+                        rebound = any(isinstance(x, ast.Name) and x.id == cs and isinstance(x.ctx, ast.Store) for x in ast.walk(caller.node))
+                        if rebound:
+                            continue
+
+                        class Sub(ast.NodeTransformer):
+                            hit = False
+
+                            def visit_Call(self2, n):
+                                self2.generic_visit(n)
+                                if isinstance(n.func, ast.Attribute) and n.func.attr == name and isinstance(n.func.value, ast.Name) and n.func.value.id == cs \
+                                        and not n.args and not n.keywords:
+                                    e = copy.deepcopy(expr)
+                                    for x in ast.walk(e):
+                                        if isinstance(x, ast.Name) and x.id == selfname:
+                                            x.id = cs
+                                        ast.copy_location(x, n)
+                                    Sub.hit = True
+                                    return e
+                                return n
+                        Sub().visit(caller.node)
+                        if Sub.hit:
+                            ast.fix_missing_locations(caller.node)
+                            for parent in ast.walk(caller.node):
+                                for child in ast.iter_child_nodes(parent):
+                                    child._parent = parent
 
     def _decorator_name(self, mod, d):
         if isinstance(d, ast.Call):
